@@ -9,9 +9,10 @@ use bmv_core::subj::*;
 use bmv_core::util::{J, guard, hex_short, xor};
 
 pub fn run(ctx: &mut Ctx) {
-    match ctx.rng.below(10) {
+    match ctx.rng.below(12) {
         0..=5 => blk(ctx),
-        _ => stream(ctx),
+        6..=8 => stream(ctx),
+        _ => cfb_bytes(ctx),
     }
 }
 
@@ -55,9 +56,9 @@ fn blk(ctx: &mut Ctx) {
     let cb = ctx.cfg.bs;
     let w = ctx.cfg.par;
     let unit = d.bs; // 1 for CFB-8
-    let (iv, _) = wl::iv(&mut ctx.rng, d.iv_len);
+    let (iv, _) = mode_iv(ctx, d.iv_len);
     let n = if fam == Family::Cfb8 { ctx.rng.range(1, 4 * cb + 3) } else { wl::nblocks(&mut ctx.rng, w, unit, ctx.tier).0.max(1) };
-    let (data, _) = wl::data(&mut ctx.rng, n * unit);
+    let (data, _) = mode_data(ctx, n * unit);
     // position class: first, middle, last
     let (j, jc) = match ctx.rng.below(3) {
         0 => (0, "first"),
@@ -193,7 +194,113 @@ fn blk(ctx: &mut Ctx) {
     }
 }
 
-/// CTR / OFB / BelT-CTR byte streams and one-shot CFB with a partial last block
+/// CFB decryption through the byte-oriented front-ends: buffered (any chunking) and one-shot
+/// (partial final block). Altering ciphertext block j flips the same bits of block j, garbles
+/// block j+1 and nothing else.
+fn cfb_bytes(ctx: &mut Ctx) {
+    let b = ctx.cfg.bs;
+    let buffered = ctx.rng.coin();
+    let (iv, _) = mode_iv(ctx, b);
+    let (len, rc) = wl::nbytes(&mut ctx.rng, b, ctx.cfg.par, ctx.tier);
+    let len = len.max(b + 1).min(40 * b + b - 1);
+    let (mut data, _) = mode_data(ctx, len);
+    let nfull = len / b;
+    let j = match ctx.rng.below(3) {
+        0 => 0,
+        1 => nfull - 1,
+        _ => ctx.rng.below(nfull),
+    };
+    // sometimes the altered block is one only the owner of D can make: E(c_j) has a zero word
+    if ctx.rc.has_d() && b >= 8 && ctx.rng.chance(1, 3) {
+        let x = crafted_preimage(ctx, b);
+        data[j * b..(j + 1) * b].copy_from_slice(&x);
+    }
+    let (delta, dcname) = gen_delta(ctx, b);
+    let mut data2 = data.clone();
+    for (i, x) in delta.iter().enumerate() {
+        data2[j * b + i] ^= x;
+    }
+    let (sched, sc) = wl::byte_schedule(&mut ctx.rng, len, b);
+    ctx.note("iv", J::s(hex_short(&iv)));
+    ctx.note("data", J::s(hex_short(&data)));
+    ctx.note("j", J::i(j as i64));
+    ctx.note("delta", J::s(hex_short(&delta)));
+    let key = ctx.key.clone();
+    let name;
+    let outs: Result<(Vec<u8>, Vec<u8>), bmv_core::util::PanicInfo> = if buffered {
+        let Some(d) = ctx.cfg.buf(Direction::Dec).cloned() else { return };
+        name = "cfb-buf/dec".to_string();
+        ctx.subject(&name);
+        ctx.note("pieces", J::Arr(sched.iter().map(|x| J::i(*x as i64)).collect()));
+        guard(|| {
+            let mut res = Vec::new();
+            for dat in [&data, &data2] {
+                let mut o = (d.mk)(Ctor::New, &key, &iv).unwrap();
+                let mut buf = dat.to_vec();
+                let mut off = 0;
+                for &k in &sched {
+                    o.apply(&mut buf[off..off + k]);
+                    off += k;
+                }
+                res.push(buf);
+            }
+            let b2 = res.pop().unwrap();
+            (res.pop().unwrap(), b2)
+        })
+    } else {
+        let Some(d) = ctx.cfg.blk(Family::Cfb, Direction::Dec).cloned() else { return };
+        name = "cfb/dec/oneshot".to_string();
+        ctx.subject(&name);
+        let form = *ctx.rng.pick(&FORMS3);
+        guard(|| {
+            let mut res = Vec::new();
+            for dat in [&data, &data2] {
+                let o = (d.mk)(Ctor::New, &key, &iv).unwrap();
+                let mut out = vec![0x7Eu8; len];
+                assert!(o.oneshot(form, dat, &mut out) == Some(true));
+                res.push(out);
+            }
+            let b2 = res.pop().unwrap();
+            (res.pop().unwrap(), b2)
+        })
+    };
+    ctx.st.api_calls += 2 * sched.len() as u64;
+    let (o1, o2) = match outs {
+        Ok(v) => v,
+        Err(p) => return ctx.panic_violation(&name, &p),
+    };
+    let diff = xor(&o1, &o2);
+    let fail = |ctx: &mut Ctx, what: String| {
+        ctx.violation(&format!("C15/support/{}", name), format!("ciphertext block {} of {} bytes altered by {}: {}", j, len, hex_short(&delta), what));
+    };
+    if !is_zero(&diff[..j * b]) {
+        return ctx.violation(&format!("C15/causality/{}", name), "output before the altered block changed".into());
+    }
+    if diff[j * b..(j + 1) * b] != delta[..] {
+        return fail(ctx, "plaintext block j did not change by exactly delta".into());
+    }
+    let next_end = ((j + 2) * b).min(len);
+    let next = &diff[(j + 1) * b..next_end];
+    // a whole block changes for sure (E is a bijection); a partial one of >= 8 bytes with
+    // probability 1 - 2^-64
+    if next.len() >= 8.min(b) && next.len() >= 8 || next.len() == b {
+        if !next.is_empty() && is_zero(next) {
+            return fail(ctx, "plaintext block j+1 did not change".into());
+        }
+    }
+    if next_end < len && !is_zero(&diff[next_end..]) {
+        let i = next_end + diff[next_end..].iter().position(|&x| x != 0).unwrap();
+        return fail(ctx, format!("plaintext byte {} (after block j+1) changed: no re-synchronisation", i));
+    }
+    ctx.st.count(&format!("ok.{}", name));
+    if len % b != 0 {
+        ctx.st.count(&format!("partial-last.{}", name));
+    }
+    ctx.nontrivial = true;
+    ctx.cell(format!("{}|{}|{}|{}|{}", name, ctx.cfg.name, rc, sc, dcname));
+}
+
+/// CTR / OFB / BelT-CTR byte streams
 fn stream(ctx: &mut Ctx) {
     if ctx.cfg.streams.is_empty() {
         return;
@@ -205,7 +312,7 @@ fn stream(ctx: &mut Ctx) {
     let (iv, _) = stream_iv(ctx, d.flavor, b);
     let (len, rc) = wl::nbytes(&mut ctx.rng, b, ctx.cfg.par, ctx.tier);
     let len = len.max(1);
-    let (data, _) = wl::data(&mut ctx.rng, len);
+    let (data, _) = mode_data(ctx, len);
     let j = match ctx.rng.below(3) {
         0 => 0,
         1 => len - 1,
